@@ -175,6 +175,33 @@ func verifRecursive(field string, p Primitive) *UserTypeExpr {
 	return t
 }
 
+// verifRecursiveUnion: a recursive type whose cycle passes through a union alternative.
+func verifRecursiveUnion(field string, p Primitive) *UserTypeExpr {
+	obj := &Object{{Name: field, Attribute: &AttributeExpr{Type: p}}}
+	t := &UserTypeExpr{TypeName: "E", AttributeExpr: &AttributeExpr{Type: obj}}
+	u := &Union{TypeName: "Arg", Values: []*NamedAttributeExpr{
+		{Name: "lit", Attribute: &AttributeExpr{Type: String}},
+		{Name: "sub", Attribute: &AttributeExpr{Type: t}},
+	}}
+	obj.Set("arg", &AttributeExpr{Type: u})
+	return t
+}
+
+// VerifC13_HashCyclicUnion: hashing and copying terminate when the cycle goes
+// through a union alternative; equal graphs hash equally.
+func VerifC13_HashCyclicUnion() {
+	verifMode("depth-limit-is-nontermination")
+	n1 := verifName("n1")
+	p1 := verifPrim2("p1")
+	a, a2 := verifRecursiveUnion(n1, p1), verifRecursiveUnion(n1, p1)
+	f, n, t := verifFlags()
+	h := Hash(a, f, n, t)
+	verifAssert("cyclic-union-hash-repeatable", Hash(a, f, n, t) == h)
+	verifAssert("cyclic-union-equal-graphs-same-hash", Hash(a2, f, n, t) == h)
+	d := Dup(a)
+	verifAssert("cyclic-union-dup-equal", Equal(d, a))
+}
+
 // VerifC13_HashCyclic: terminates on recursive types, repeated calls agree,
 // separately built equal graphs hash equally, different ones differently.
 func VerifC13_HashCyclic() {
